@@ -144,7 +144,11 @@ func c19Exec(t *testing.T, scn c19Scenario, ch *mc.Chooser) (rec c19Rec, machine
 		off := aofS0
 		for i, ki := range scn.Keys {
 			raw := redisd.EncodeCommandS("SET", c19Keys[0], "unused")
-			if ki == -2 {
+			if ki == 9 {
+				// a command a healthy node answers with a nil reply and that changes nothing (the list does
+				// not exist); it lives in the slot of {t}, like keys 0 and 1
+				raw = redisd.EncodeCommandS("LPOP", "nl{t}")
+			} else if ki == -2 {
 				// a multi-key command on two keys of one slot: while that slot migrates and only one
 				// of the keys has moved, its owner answers TRYAGAIN
 				raw = redisd.EncodeCommandS("DEL", c19Keys[0], c19Keys[1])
@@ -499,7 +503,7 @@ func oracleC19(scn c19Scenario, rec *c19Rec) mc.Result {
 			perKeySrc[c19Keys[1]] = append(perKeySrc[c19Keys[1]], delTok)
 			continue
 		}
-		if ki < 0 {
+		if ki < 0 || ki == 9 {
 			continue
 		}
 		k := c19Keys[ki]
@@ -683,6 +687,34 @@ func runC19(t *testing.T, rep *mc.Reporter) {
 				}
 				scn := c19Scenario{Keys: keys, Cfg: cfg, Topo: tp, SameNode: cfg.Txn}
 				mc.RunScenario(rep, scn, bound, budget, func(ch *mc.Chooser) mc.Result { return exec(scn, ch) })
+			}
+		}
+	}
+	// ---- family "nil": a command answered with a nil reply (and changing nothing) in front of writes that
+	// are redirected: the reply of every command of a node batch must stay with its command. Batches of
+	// up to 4 commands, so that a nil answer, another command and a redirected one share a node batch.
+	{
+		nstreams := [][]int{{9, 0, 0}, {9, 1, 0}, {0, 9, 1, 0}}
+		ncfgs := []aofCfg{
+			{Txn: false, Resume: true, Pipeline: false, Count: 4, Bytes: 1 << 20, DbMode: "id"},
+			{Txn: false, Resume: true, Pipeline: true, Count: 4, Bytes: 1 << 20, DbMode: "id"},
+		}
+		ntopos := [][]string{{"O"}, {"M", "F"}, {"M", "Ka", "F"}}
+		if tier == "thorough" {
+			nstreams = append(nstreams, []int{9, 9, 0, 1}, []int{1, 9, 0, 9, 1})
+			ncfgs = append(ncfgs, aofCfg{Txn: true, Resume: true, Pipeline: true, Count: 4, Bytes: 1 << 20, DbMode: "id"})
+			ntopos = append(ntopos, []string{"M", "Ka"}, []string{"M"})
+		}
+		for _, st := range nstreams {
+			for _, tp := range ntopos {
+				for _, cfg := range ncfgs {
+					idx++
+					if idx%nshards != shard || budget.Expired() || (fam != "" && fam != "nil") {
+						continue
+					}
+					scn := c19Scenario{Keys: st, Cfg: cfg, Topo: tp, SameNode: cfg.Txn, Burst: true}
+					mc.RunScenario(rep, scn, bound, budget, func(ch *mc.Chooser) mc.Result { return exec(scn, ch) })
+				}
 			}
 		}
 	}
